@@ -2109,14 +2109,17 @@ func marshalTuple(info TypeInfo, value interface{}) ([]byte, error) {
 	return nil, marshalErrorf("cannot marshal %T into %s", value, tuple)
 }
 
-func readBytes(p []byte) ([]byte, []byte) {
+func readBytes(p []byte) ([]byte, []byte, error) {
 	// TODO: really should use a framer
 	size := readInt(p)
 	p = p[4:]
 	if size < 0 {
-		return nil, p
+		return nil, p, nil
 	}
-	return p[:size], p[size:]
+	if int(size) > len(p) {
+		return nil, nil, unmarshalErrorf("unexpected eof: value of %d bytes, %d bytes left", size, len(p))
+	}
+	return p[:size], p[size:], nil
 }
 
 // currently only support unmarshal into a list of values, this makes it possible
@@ -2134,7 +2137,10 @@ func unmarshalTuple(info TypeInfo, data []byte, value interface{}) error {
 			// each element inside data is a [bytes]
 			var p []byte
 			if len(data) >= 4 {
-				p, data = readBytes(data)
+				var err error
+				if p, data, err = readBytes(data); err != nil {
+					return err
+				}
 			}
 			err := Unmarshal(elem, p, v[i])
 			if err != nil {
@@ -2163,7 +2169,10 @@ func unmarshalTuple(info TypeInfo, data []byte, value interface{}) error {
 		for i, elem := range tuple.Elems {
 			var p []byte
 			if len(data) >= 4 {
-				p, data = readBytes(data)
+				var err error
+				if p, data, err = readBytes(data); err != nil {
+					return err
+				}
 			}
 
 			v, err := elem.NewWithError()
@@ -2200,7 +2209,10 @@ func unmarshalTuple(info TypeInfo, data []byte, value interface{}) error {
 		for i, elem := range tuple.Elems {
 			var p []byte
 			if len(data) >= 4 {
-				p, data = readBytes(data)
+				var err error
+				if p, data, err = readBytes(data); err != nil {
+					return err
+				}
 			}
 
 			v, err := elem.NewWithError()
@@ -2348,8 +2360,11 @@ func unmarshalUDT(info TypeInfo, data []byte, value interface{}) error {
 				return unmarshalErrorf("can not unmarshal %s: field [%d]%s: unexpected eof", info, id, e.Name)
 			}
 
-			var p []byte
-			p, data = readBytes(data)
+			p, rest, err := readBytes(data)
+			if err != nil {
+				return err
+			}
+			data = rest
 			if err := v.UnmarshalUDT(e.Name, e.Type, p); err != nil {
 				return err
 			}
@@ -2391,8 +2406,11 @@ func unmarshalUDT(info TypeInfo, data []byte, value interface{}) error {
 
 			val := reflect.New(valType)
 
-			var p []byte
-			p, data = readBytes(data)
+			p, rest, err := readBytes(data)
+			if err != nil {
+				return err
+			}
+			data = rest
 
 			if err := Unmarshal(e.Type, p, val.Interface()); err != nil {
 				return err
@@ -2441,8 +2459,11 @@ func unmarshalUDT(info TypeInfo, data []byte, value interface{}) error {
 			return unmarshalErrorf("can not unmarshal %s: field [%d]%s: unexpected eof", info, id, e.Name)
 		}
 
-		var p []byte
-		p, data = readBytes(data)
+		p, rest, err := readBytes(data)
+		if err != nil {
+			return err
+		}
+		data = rest
 
 		f, ok := fields[e.Name]
 		if !ok {
